@@ -30,6 +30,7 @@ W0 == Worlds[KW]
 Ops == IF W0.c.HasSel
        THEN [op : {"key"}, k : 1..3] \cup [op : {"enable"}, T : {"A"}, b : BOOLEAN] \cup [op : {"reset"}, T : {"A"}]
        ELSE [op : {"enable"}, T : {"A"}, b : BOOLEAN] \cup [op : {"reset"}, T : {"A"}] \cup [op : {"settl"}, T : {"A"}, id : {1, 8}]
+            \cup [op : {"setpos"}, T : {"A"}, p : {0, 5}]
 
 Init == /\ w = World0(W0.c, W0.tlA, W0.tlB, W0.key0, TRUE)
         /\ ord \in (IF OrdSel = 0 THEN Orders ELSE {CHOOSE o \in Orders : o[1] = "chain" /\ o[2] = "select" /\ o[3] = "animA"})
@@ -40,6 +41,7 @@ UserOp == /\ pc = 0 /\ Len(hist) < MaxSteps
           /\ \E o \in Ops :
                /\ w' = CASE o.op = "key" -> SetKey(w, o.k) [] o.op = "enable" -> SetEnabled(w, o.T, o.b)
                          [] o.op = "reset" -> Reset(w, o.T) [] o.op = "settl" -> SetTimeline(w, o.T, o.id)
+                         [] o.op = "setpos" -> SetPos(w, o.T, o.p)
                /\ hist' = Append(hist, [ev |-> "op"] @@ o)
           /\ UNCHANGED <<ord, pc, dt>>
 BeginFrame == /\ pc = 0 /\ Len(hist) < MaxSteps
